@@ -49,6 +49,8 @@ func main() {
 			res := runScenario(genScenario(props[os.Args[2]], seed, i, os.Args[3]))
 			fmt.Printf("%s seed=%d index=%d log=%016x abs=%016x events=%d viol=%d\n", os.Args[2], seed, i, traceHash(res), res.Abs, res.Events, len(res.Viol))
 		}
+	case "seqcheck":
+		os.Exit(seqcheckMain(os.Args[2:]))
 	case "report":
 		os.Exit(reportMain(os.Args[2:]))
 	case "selftest":
